@@ -3,6 +3,7 @@ import FlVerif.Drv.State
 import FlVerif.Drv.Fld
 import FlVerif.Drv.Engine
 import FlVerif.Drv.Term
+import FlVerif.Drv.Rules
 
 /-! Registry of driver command groups: one handler per group, tried in order (`none` = not mine / malformed). -/
 
@@ -13,5 +14,6 @@ def handlers : List (List SExp → Option SExp) :=
   , fld
   , engine
   , term
+  , rules
   ]
 end Drv
